@@ -3,13 +3,276 @@ import PpciVerif.Model.ElfW
 import PpciVerif.Gen.ElfHeaders
 import PpciVerif.Proofs.ElfW
 /-!
-# C17 — ELF output is read back faithfully
+# C17 — ELF output is read back faithfully by independent ELF readers  (shape P)
+
+Model : `Model.ElfW.exportObject` (= `ElfWriter.export_object` for ET_REL / ET_EXEC), parametrised
+        with the header `_fields` tables; tied to /repo by `Gen.ElfHeaders` (tables dumped from the
+        live classes) and by the byte-exact differential run of harness/c17.py.
+Spec  : `Spec.Elf.read`, an ELF reader written from the gABI.
+
+Property theorems only.  Everything is for ALL objects (no bound on sizes / counts) and for both
+classes and byte orders; the hypothesis `write … = .ok file` is exactly "ppci wrote a file"
+(`struct.error`, `KeyError`, … mean that no file exists).
+
+What is proved at full generality
+* `layouts_match_gabi`, `sizes_match_gabi` — ppci's header classes are the gABI structures
+* `field_roundtrip`, `signed_field_roundtrip`, `record_roundtrip`, `table_roundtrip`
+* `string_table_lookup`
+* `symbols_locals_first`, `symbols_permutation`, `symbol_info_roundtrip`, `rela_info_roundtrip_*`
+* `align_to_aligned`, `written_chunk_stays`
+* `header_read_back` — class, byte order, e_type, e_machine, entry point
+* `segments_hold_images`, `page_loader_sees_image` — every PT_LOAD segment = Image.data at its vaddr
+
+What is NOT proved as one statement (`read_write_full`, kept below as a `def`): that `Spec.Elf.read`
+of the written file succeeds as a whole and that its section / symbol / relocation tables equal the
+object's.  The layers above (record round trip, chunk placement, string table, symbol order) are the
+ingredients; their composition through the section header table is evaluated on every real file by
+harness/c17.py instead (Lean reader on real bytes), hence the suffix `_partial` on the two end-to-end
+theorems that are proved.
 -/
 namespace Props.C17
 open Spec.Elf Model.ElfW Proofs.ElfW
 
-/-- translation tie: the `_fields` of ppci's header classes are the gABI layouts, in the announced byte order -/
+/-! ### translation tie: `headers.py` = gABI -/
+
+/-- the `_fields` of ppci's header classes (regenerated from the live classes on every run) are the
+    gABI structures — order, C types — packed in the byte order announced by `EI_DATA` -/
 theorem layouts_match_gabi (c : Cls) (e : End) : Gen.ElfHeaders.layouts c e = gabiLayouts c e := by
   cases c <;> cases e <;> decide
+
+/-- the classes' `size` attributes are the gABI structure sizes -/
+theorem sizes_match_gabi (c : Cls) (e : End) :
+    Gen.ElfHeaders.sizes c e =
+      [recSize (ehdr c), recSize (phdr c), recSize (shdr c), recSize (sym c), recSize (rela c), recSize (dyn c)] := by
+  cases c <;> cases e <;> decide
+
+/-! ### fields, records, tables -/
+
+/-- an unsigned field that `struct.pack` accepted is read back by the gABI reader as the value -/
+theorem field_roundtrip (e : End) (f : Field) (v : Int) (bs : List Nat) (hs : f.fmt.signed = false)
+    (h : encode (toP e f) v = .ok bs) : bs.length = f.fmt.size ∧ (uval e bs : Int) = v := by
+  have ⟨h1, h2, h3⟩ := encode_ok h
+  simp only [toP] at h1 h2 h3
+  rw [endOf_orderOf] at h2
+  exact ⟨h1, by rw [h2]; exact (rawOf_of_fits_unsigned hs h3).2⟩
+
+/-- a signed field (`r_addend`, `d_tag`) is read back in two's complement as the value -/
+theorem signed_field_roundtrip (e : End) (f : Field) (v : Int) (bs : List Nat) (hs : f.fmt.signed = true)
+    (h : encode (toP e f) v = .ok bs) : toSigned (8 * f.fmt.size) (uval e bs) = v := by
+  have ⟨_, h2, h3⟩ := encode_ok h
+  simp only [toP] at h2 h3
+  rw [endOf_orderOf] at h2
+  rw [h2]; exact toSigned_rawOf hs h3
+
+/-- `BaseHeader.serialize` followed by the gABI record reader returns every field, whatever follows -/
+theorem record_roundtrip (e : End) (fs : List Field) (h : Hdr) (bs rest : List Nat)
+    (hser : serialize (fs.map (toP e)) h = .ok bs) :
+    readRec e fs (bs ++ rest) = some (recOf fs h) ∧ bs.length = recSize fs :=
+  let ⟨a, b, _⟩ := serialize_read e fs h bs rest hser
+  ⟨a, b⟩
+
+/-- a table of records (program headers, section headers, symbols, RELA entries) written back to back at
+    offset `pre.length` is read back entry by entry -/
+theorem table_roundtrip (e : End) (fs : List Field) (hs : List Hdr) (bytes pre post : List Nat)
+    (hser : serializeAll (fs.map (toP e)) hs = .ok bytes) :
+    readTable (pre ++ bytes ++ post) e fs (recSize fs) pre.length hs.length = some (hs.map (recOf fs)) :=
+  (serializeAll_read e fs hs bytes pre post hser).1
+
+/-! ### string table -/
+
+/-- `StringTable.get_name`: the offset handed out resolves (gABI string-table lookup) to the name,
+    and so does every offset handed out before — also after any number of later insertions -/
+theorem string_table_lookup (s : St) (txt : List Nat) (hn : NoNul txt) (hw : StrWF s) :
+    StrWF (s.getString txt).1 ∧ strAt (s.getString txt).1.strtab (s.getString txt).2 = some txt :=
+  let ⟨a, b, _⟩ := getString_spec s txt hn hw
+  ⟨a, b⟩
+
+/-! ### symbol table order, `st_info`, `r_info` -/
+
+/-- all local symbols precede all global ones; `sh_info = #locals + 1` is the index of the first non-local
+    (index 0 is the reserved null symbol) -/
+theorem symbols_locals_first (syms : List Sym) :
+    let n := (syms.filter (fun s => !s.isGlobal)).length
+    (∀ s ∈ (orderSymbols syms).take n, s.isGlobal = false) ∧
+    (∀ s ∈ (orderSymbols syms).drop n, s.isGlobal = true) :=
+  orderSymbols_locals_first syms
+
+/-- no symbol is lost or duplicated by the reordering -/
+theorem symbols_permutation (syms : List Sym) : (orderSymbols syms).Perm syms := orderSymbols_perm syms
+
+/-- `st_info = (bind << 4) | type` splits back (ELF_ST_BIND / ELF_ST_TYPE) -/
+theorem symbol_info_roundtrip (g : Bool) (t : SymTyp) :
+    ((if g then 1 else 0) * 16 + t.st) / 16 = (if g then 1 else 0) ∧
+    ((if g then 1 else 0) * 16 + t.st) % 16 = t.st := by
+  cases g <;> cases t <;> decide
+
+/-- ELF64: `r_info = (sym << 32) + type` splits back for every 32-bit type -/
+theorem rela_info_roundtrip_64 (sym ty : Nat) (h : ty < 4294967296) :
+    (sym * 4294967296 + ty) / 4294967296 = sym ∧ (sym * 4294967296 + ty) % 4294967296 = ty := by
+  omega
+
+/-- ELF32: `r_info = (sym << 8) + type` splits back for every 8-bit type -/
+theorem rela_info_roundtrip_32 (sym ty : Nat) (h : ty < 256) :
+    (sym * 256 + ty) / 256 = sym ∧ (sym * 256 + ty) % 256 = ty := by
+  omega
+
+/-! ### layout of the file -/
+
+/-- `align_to`: afterwards the file position is a multiple of the alignment and only zeros were added -/
+theorem align_to_aligned (s s' : St) (a : Nat) (h : s.alignTo a = .ok s') :
+    s'.tell % a = 0 ∧ ∃ k, s' = s.write (zeros k) :=
+  let ⟨_, b, c⟩ := alignTo_spec h
+  ⟨c, _, b⟩
+
+/-- what was written at offset `off` is still there, unchanged, in the final file: every later step of the
+    writer (sections, symbol table, RELA tables, string table, section header table) only appends -/
+theorem written_chunk_stays (L : Layouts) (o : Obj) (t : EType) (s1 s2 s3 s4 s6 : St) (off : Nat) (d pre : List Nat)
+    (h2 : writeSections s1 o.sections = .ok s2) (h3 : writeSymbolTable {} L o s2 = .ok s3)
+    (h4 : (if t == .rel then writeRelaTable L o s3 else .ok s3) = .ok s4)
+    (h6 : writeSectionHeaders L (writeStringTable s4) = .ok s6)
+    (hpre : pre.length = s6.base) (hin : InBody s1 off d) :
+    slice (pre ++ s6.body) off d.length = some d :=
+  (hin.grow (export_chain h2 h3 h4 h6).grow).slice pre hpre
+
+/-! ### end to end: header -/
+
+/-- The gABI reader sees the class and byte order of the machine, `e_type`, `e_machine`, and — for an
+    executable — the value of the entry symbol as entry point. -/
+theorem header_read_back_partial (o : Obj) (t : EType) (file : List Nat)
+    (h : write (gabiLayouts o.arch.cls o.arch.en) o t = .ok file) :
+    readIdent file = .ok (o.arch.cls, o.arch.en) ∧
+    ∃ hd, readEhdr file o.arch.cls o.arch.en = .ok hd ∧
+      hd.get .e_type = t.val ∧ hd.get .e_machine = o.arch.machine ∧
+      entryValue o t = .ok (hd.get .e_entry : Int) ∧ hd.get .e_phnum = phnum o t := by
+  obtain ⟨s6, entry, shstrndx, hid, hrd, hent, hfits⟩ := export_readEhdr h
+  refine ⟨hid, _, hrd, ?_, ?_, ?_, ?_⟩
+  · have g := ehdr_field (c := o.arch.cls) .e_type ⟨.e_type, .H⟩ (by cases o.arch.cls <;> rfl) rfl hfits
+    exact Int.ofNat_inj.mp g
+  · have g := ehdr_field (c := o.arch.cls) .e_machine ⟨.e_machine, .H⟩ (by cases o.arch.cls <;> rfl) rfl hfits
+    exact Int.ofNat_inj.mp g
+  · have g := ehdr_field (c := o.arch.cls) .e_entry ⟨.e_entry, wordFmt o.arch.cls⟩ (by cases o.arch.cls <;> rfl)
+      (by cases o.arch.cls <;> rfl) hfits
+    rw [g]; exact hent
+  · have g := ehdr_field (c := o.arch.cls) .e_phnum ⟨.e_phnum, .H⟩ (by cases o.arch.cls <;> rfl) rfl hfits
+    exact Int.ofNat_inj.mp g
+
+/-! ### end to end: loadable segments = memory images -/
+
+/-- For every executable ppci writes, the gABI reader finds exactly one `PT_LOAD` segment per image, in
+    order, with `p_vaddr = p_paddr = Image.address`, `p_filesz = p_memsz = len(Image.data)`, the segment's
+    file bytes equal to `Image.data`, `p_align = 4096` and `p_offset ≡ p_vaddr (mod 4096)`. -/
+theorem segments_hold_images_partial (o : Obj) (file : List Nat)
+    (h : write (gabiLayouts o.arch.cls o.arch.en) o .exec = .ok file) :
+    ∃ hd sgs, readEhdr file o.arch.cls o.arch.en = .ok hd ∧
+      readSegments file o.arch.cls o.arch.en hd = .ok sgs ∧ All2 SegFaithful o.images sgs :=
+  export_segments h
+
+/-- gABI reader, any file: a segment's `data` are the `p_filesz` file bytes at `p_offset`; when
+    `p_offset ≡ p_vaddr (mod 4096)` a loader that maps whole file pages (mmap, as the Linux kernel does)
+    shows exactly these bytes at the addresses `p_vaddr + i`.  Together with `segments_hold_images_partial`:
+    such a loader sees `Image.data[i]` at `Image.address + i` for every `i`. -/
+theorem page_loader_sees_image (file : List Nat) (c : Cls) (e : End) (hd : Rec) (sgs : List Segment)
+    (h : readSegments file c e hd = .ok sgs) (sg : Segment) (hsg : sg ∈ sgs)
+    (hc : sg.offset % 4096 = sg.vaddr % 4096) (i : Nat) (hi : i < sg.filesz) :
+    pageMappedByte file 4096 sg (sg.vaddr + i) = sg.data[i]? :=
+  pageMapped_eq (readSegments_data h sg hsg) hc i hi
+
+/-! ### the full statement (NOT proved as a whole — see the header of this file) -/
+
+/-- what an ELF reader must see of object `o` written as type `t` -/
+def ViewMatches (o : Obj) (t : EType) (v : File) : Prop :=
+  v.cls = o.arch.cls ∧ v.en = o.arch.en ∧ v.etype = t.val ∧ v.machine = o.arch.machine ∧
+  entryValue o t = .ok (v.entry : Int) ∧
+  -- sections: contents and addresses
+  (∀ s ∈ o.sections, ∃ x ∈ v.sections, x.name = s.name ∧ x.addr = s.address ∧ x.data = s.data) ∧
+  -- symbols: one table, locals first, every object symbol with its value / binding / type
+  (∃ tab, v.symtabs = [tab] ∧ tab.firstNonLocal = (o.symbols.filter (fun s => !s.isGlobal)).length + 1 ∧
+    tab.syms.length = o.symbols.length + 1 ∧
+    ∀ s ∈ o.symbols, ∃ y ∈ tab.syms, y.name = s.name ∧ y.bind = (if s.isGlobal then 1 else 0) ∧ y.type = s.typ.st ∧
+      (s.value = none → y.shndx = 0 ∧ y.value = 0) ∧
+      (∀ val, s.value = some val → s.sect = none → y.shndx = SHN_ABS ∧ y.value = val)) ∧
+  -- relocations (relocatable files): one RELA table per section with relocations, entries in order
+  (t = .rel → ∀ r ∈ o.relocs, ∃ rt ∈ v.relatabs, ∃ en ∈ rt.entries, en.offset = r.offset ∧ en.addend = r.addend ∧
+      RType.ok en.type = r.rtype) ∧
+  -- images (executables)
+  (t = .exec → All2 SegFaithful o.images v.segments)
+
+/-- FULL statement of C17 for the model; proved only in the layers above (`header_read_back_partial`,
+    `segments_hold_images_partial` and the record / string-table / symbol-order theorems). Missing: the
+    composition through the section header table (`readSections`, `readSymTabs`, `readRelaTabs` succeed on the
+    written file and return the object's tables).  Evaluated on every real file by harness/c17.py. -/
+def read_write_full : Prop :=
+  ∀ (o : Obj) (t : EType) (file : List Nat),
+    (∀ s ∈ o.sections, NoNul s.name ∧ (1 < s.alignment → isPow2 s.alignment = true ∧ s.address % s.alignment = 0)) →
+    (∀ s ∈ o.symbols, NoNul s.name) →
+    write (gabiLayouts o.arch.cls o.arch.en) o t = .ok file →
+    ∃ v, Spec.Elf.read file = .ok v ∧ ViewMatches o t v
+
+/-! ### concrete instances: non-vacuity and negation witnesses (tests, labelled as such) -/
+
+/-- a relocatable x86-64 file with two sections, four symbols (local, global in the 2nd section, absolute,
+    undefined) and two RELA tables is written, accepted by the gABI reader, and read back -/
+example :
+    (match outcome (write (gabiLayouts .c64 .le) (tinyRel .x86_64) .rel) with
+     | .readBack s => some (s.sections.take 3, s.sections.map (·.name))
+     | _ => none) =
+    some ([⟨[], 0, 0, []⟩, ⟨codeN, 1, 0, [1, 2, 3, 4, 5]⟩, ⟨dataName, 1, 0, [9, 8]⟩],
+          [[], codeN, dataName, symtabName, relaPrefix ++ codeN, relaPrefix ++ dataName, strtabName]) := by
+  decide +kernel
+
+example :
+    (match outcome (write (gabiLayouts .c64 .le) (tinyRel .x86_64) .rel) with
+     | .readBack s => some (s.cls, s.en, s.machine, s.symbols)
+     | _ => none) =
+    some (.c64, .le, 62,
+      [⟨2, [⟨[], 0, 0, 0, 0⟩, ⟨[108], 3, 0, 2, 1⟩, ⟨[103], 1, 1, 1, 2⟩, ⟨[97], 4660, 1, 1, 0xfff1⟩, ⟨[117], 0, 1, 2, 0⟩]⟩]) := by
+  decide +kernel
+
+example :
+    (match outcome (write (gabiLayouts .c64 .le) (tinyRel .x86_64) .rel) with
+     | .readBack s => s.relas
+     | _ => []) = [⟨1, [⟨1, 2, 2, -4⟩]⟩, ⟨2, [⟨0, 1, 1, 7⟩]⟩] := by
+  decide +kernel
+
+/-- the same symbols for the big-endian machine: accepted by the gABI reader (ELFCLASS32, ELFDATA2MSB) -/
+example :
+    (match outcome (write (gabiLayouts .c32 .be) { tinyRel .microblaze with relocs := [] } .rel) with
+     | .readBack s => some (s.cls, s.en, s.machine, s.symbols)
+     | _ => none) =
+    some (.c32, .be, 189, [⟨2, [⟨[], 0, 0, 0, 0⟩, ⟨[108], 3, 0, 2, 1⟩, ⟨[103], 1, 1, 1, 2⟩, ⟨[97], 4660, 1, 1, 0xfff1⟩,
+                                ⟨[117], 0, 1, 2, 0⟩]⟩]) := by
+  decide +kernel
+
+/-- NEGATION WITNESS (fixed by ec1546e): with the legacy field formats (no byte-order prefix = native order)
+    the big-endian file is rejected by the gABI reader -/
+example :
+    outcome (write (legacyLayouts .c32) { tinyRel .microblaze with relocs := [] } .rel) = .rejected .badVersion := by
+  decide +kernel
+
+/-- the legacy tables are not the gABI layouts for big-endian files -/
+example : legacyLayouts .c32 ≠ gabiLayouts .c32 .be := by decide
+
+/-- NEGATION WITNESS (fixed by e2de1f3): the legacy writer raised KeyError on an absolute symbol -/
+example : outcome (exportObject { absKeyError := true } (gabiLayouts .c64 .le) (tinyRel .x86_64) .rel) = .noFile .KeyError := by
+  decide +kernel
+
+/-- NEGATION WITNESS (fixed by ebcabf3): an image at the non page-aligned address 0x10004 — the legacy writer's
+    file is rejected by the gABI reader (`p_vaddr` not congruent to `p_offset`) … -/
+example :
+    outcome (exportObject { noVaddrPadding := true } (gabiLayouts .c32 .le) tinyExec .exec) =
+      .rejected .vaddrOffsetNotCongruent := by
+  decide +kernel
+
+/-- … the current one is read back: entry = value of the entry symbol, the segment holds the image bytes -/
+example :
+    (match outcome (write (gabiLayouts .c32 .le) tinyExec .exec) with
+     | .readBack s => some (s.entry, s.segments)
+     | _ => none) = some (0x10006, [⟨0x10004, 0x1004, [1, 2, 3, 4]⟩]) := by
+  decide +kernel
+
+/-- NEGATION WITNESS (open finding): relocations whose type the arch cannot map — no file -/
+example : outcome (write (gabiLayouts .c32 .le) { tinyRel .arm with relocs := [⟨.notImplemented, 0, codeN, 0, 0⟩] } .rel)
+    = .noFile .NotImplementedError := by
+  decide +kernel
 
 end Props.C17
